@@ -75,7 +75,7 @@ PATHS: Dict[str, List[str]] = {
     "try_except_arm": ["try:", "    q8 = 1", "except:", "    v = 1"],
     "try_if": ["try:", "    if a > 3:", "        v = 120", "except:", "    q9 = 0"],
     "straight": ["v = 120"],
-    "straight_div": ["v //= 2"], "straight_floordiv": ["v //= 3"], "straight_mul": ["v *= 2"], "straight_sub": ["v -= 30"], "straight_mod": ["v %= 150"],
+    "straight_div": ["v //= 2"], "straight_truediv": ["v /= 0.5"], "straight_floordiv": ["v //= 3"], "straight_mul": ["v *= 2"], "straight_sub": ["v -= 30"], "straight_mod": ["v %= 150"],
     "straight_div_if": ["if a > 3:", "    v //= 2"],  # (200 -> 100 -> 50 -> 25: stays integral for the passes run; a fractional value in an int variable is KF-C02-first-assignment-wins)
     "straight_aug": ["v += 20"],
     "straight_tuple": ["v, q4 = 120, 2"],
